@@ -513,6 +513,26 @@ func c02(c *Ctx) {
 		}
 	}
 	R.Min("R02.7", "loops that re-partition State.res", loops, 1)
+
+	// ---- R02.8 -----------------------------------------------------------------------
+	R.Explain("R02.8", "T-CALLERS: whether a state holds a message is asked of the snapshot alone (snapshot.hasMessage) only where the queued responders have already been applied - inside Responder.handle at flush time - and in the two State getters built on it; code that runs when a state update is filtered or applied must use State.hasOrWillHaveMessage, because the message's EXISTS may still be queued (a flag change dropped there never reaches the session).")
+	hm := c.fn("R02.8", "internal/state.(*snapshot).hasMessage")
+	if hm != nil {
+		allowedCallers := []string{
+			"internal/state.(*targetedExists).handle", "internal/state.(*expunge).handle", "internal/state.(*fetch).handle",
+			"internal/state.(*State).HasMessage", "internal/state.(*State).hasOrWillHaveMessage", "internal/state.(*State).UpdateMessageRemoteID",
+		}
+		R.Table("R02.8 callers of snapshot.hasMessage", allowedCallers...)
+		k := 0
+		for _, cs := range P.CallersOf(hm) {
+			if !isProductPkg(engine.RelPkg(P.OwnPkgPath(cs.Fn))) || cs.Common().StaticCallee() != hm {
+				continue
+			}
+			k++
+			R.Check(c.isAnchor(topFn(cs.Fn), allowedCallers...), "R02.8", c.name(cs.Fn)+"|snapshot.hasMessage", P.Pos(cs.Pos()), "asked at flush time or by a State getter", "the snapshot alone is asked whether the state holds the message in code that runs before the queued responders were applied: a message whose EXISTS is still pending is treated as absent and the change for it is dropped (this session never converges)")
+		}
+		R.Min("R02.8", "callers of snapshot.hasMessage", k, 5)
+	}
 }
 
 func isParamLoad(v ssa.Value) bool {
